@@ -101,7 +101,9 @@ def cases(rng, tier):
         out.append({"folders": folders, "writer": rng.choice(["py", "ref"]), "chain": rng.choice(["COPY", "LZMA2", "ZSTD", "BZIP2"]), "seed": rng.getrandbits(32),
                     "max_schedules": 60 if tier == "quick" else 400, "mp_runs": 3 if tier == "quick" else 12})
     # shapes in which two workers can meet in one output path, or the parallel paths differ from the sequential one by construction
-    shapes = ["renamed-collision", "file-vs-dir-prefix", "mp-factory", "mp-large-error", "chdir-after-open"]
+    shapes = ["renamed-collision", "file-vs-dir-prefix", "mp-factory", "mp-large-error", "chdir-after-open",
+              # fourth hunt: the name of the open archive taken away or given to another file; two objects, one directory, link members
+              "name-gone-after-open", "name-replaced-after-open", "two-objects-one-directory"]
     for i in range(len(shapes) * (1 if tier == "quick" else 6)):
         out.append({"kind": "special", "shape": shapes[i % len(shapes)], "seed": rng.getrandbits(32), "_timeout": 120})
     return out
@@ -209,6 +211,74 @@ def _run_special(case):
                 obs["damaged_runs"] += 1
             if len(set(res.values())) != 1 or res["sequential"] == "returned":
                 viol.append({"key": "worker-error-differs/large-error", "what": "damaged folder whose error carries a 65000-character name: %r" % res})
+        elif shape in ("name-gone-after-open", "name-replaced-after-open"):
+            def build(p_, tag):
+                for i in range(3):
+                    with py7zr.SevenZipFile(p_, "w" if i == 0 else "a", filters=cp) as z:
+                        z.writestr((b"%s-member-%d " % (tag, i)) * 20, "f%d.txt" % i)
+
+            res = {}
+            for mode, kw in (("threads", {}), ("processes", {"mp": True}), ("sequential", {"password": "unused"})):
+                build(path, b"opened")
+                other = os.path.join(d, "other.7z")
+                build(other, b"OTHER!")
+                out = os.path.join(d, "o-" + mode)
+                try:
+                    z = py7zr.SevenZipFile(path, "r", **kw)
+                    try:
+                        if shape == "name-gone-after-open":
+                            os.rename(path, os.path.join(d, "moved-%s.7z" % mode)) if r.random() < 0.5 else os.unlink(path)
+                        else:
+                            os.replace(other, path)
+                        z.extractall(out)
+                    finally:
+                        z.close()
+                    t = pz.walk_tree(out)
+                    res[mode] = "ok:" + ",".join("%s=%s" % (k, (v.get("data") or b"")[:6].decode()) for k, v in sorted(t.items()))
+                except Exception as e:
+                    res[mode] = "raised " + type(e).__name__
+                obs["damaged_runs"] += 1
+                if os.path.exists(path):
+                    os.unlink(path)
+            if len(set(res.values())) != 1 or "OTHER!" in "".join(res.values()):
+                viol.append({"key": "paths-differ/%s" % shape, "what": "three-folder archive opened by name, then its name %s, then extractall(): %r" % (
+                    "unlinked or renamed" if shape == "name-gone-after-open" else "given to another archive of the same layout", res)})
+        elif shape == "two-objects-one-directory":
+            import threading
+
+            os.mkdir(os.path.join(d, "src"))
+            with open(os.path.join(d, "src", "t.txt"), "wb") as f:
+                f.write(b"target " * 10)
+            with py7zr.SevenZipFile(path, "w", filters=cp) as z:
+                z.write(os.path.join(d, "src", "t.txt"), "t.txt")
+                for i in range(300):
+                    lp = os.path.join(d, "src", "l%03d" % i)
+                    os.symlink("t.txt", lp)
+                    z.write(lp, "l%03d" % i)
+            bad = []
+            for trial in range(20):
+                out = os.path.join(d, "same%d" % trial)
+                errs = []
+
+                def run():
+                    try:
+                        with py7zr.SevenZipFile(path, "r") as z:
+                            z.extractall(out)
+                    except Exception as e:
+                        errs.append(type(e).__name__ + ": " + str(e)[:80])
+
+                ts = [threading.Thread(target=run) for _ in range(3)]
+                for t_ in ts:
+                    t_.start()
+                for t_ in ts:
+                    t_.join()
+                obs["damaged_runs"] += 1
+                if errs:
+                    bad.append(errs[0])
+                elif len(pz.walk_tree(out)) != 301:
+                    bad.append("entries: %d" % len(pz.walk_tree(out)))
+            if bad:
+                viol.append({"key": "concurrent-objects-disturb/one-directory", "what": "three SevenZipFile objects extracting one archive of 300 link members into one directory at the same time, 20 trials: %d failed (%s)" % (len(bad), bad[0])})
         else:  # chdir-after-open
             for i in range(3):
                 with py7zr.SevenZipFile(path, "w" if i == 0 else "a", filters=cp) as z:
